@@ -95,8 +95,9 @@ class LoopBreak(Exception):
 
 
 class Raised(Exception):
-    def __init__(self, text):
+    def __init__(self, text, value=None):
         self.text = text
+        self.value = value      # the evaluated exception object, if any
 
 
 def is_generator(fdef):
@@ -155,6 +156,8 @@ class Evaluator(object):
         self.context_of = {}
         # callable(Sym) -> bool: does the name denote a class
         self.sym_is_class = None
+        # evaluate the operand of `raise` (Raised.value); off by default
+        self.evaluate_raises = False
         # names bound to plain python values (stand-ins for imported
         # constants such as os.path.sep)
         self.constants = {}
@@ -299,6 +302,23 @@ class Evaluator(object):
                 except LoopBreak:
                     break
             return
+        if isinstance(st, ast.Delete):
+            for t in st.targets:
+                if isinstance(t, ast.Name):
+                    env.pop(t.id, None)
+                elif isinstance(t, ast.Subscript):
+                    obj = self.expr(t.value, env)
+                    if isinstance(t.slice, ast.Slice):
+                        lo = self.expr(t.slice.lower, env) \
+                            if t.slice.lower else None
+                        hi = self.expr(t.slice.upper, env) \
+                            if t.slice.upper else None
+                        del obj[lo:hi]
+                    else:
+                        del obj[self.expr(t.slice, env)]
+                else:
+                    self.err(st, 'unsupported del target')
+            return
         if isinstance(st, ast.Continue):
             raise LoopContinue()
         if isinstance(st, ast.Break):
@@ -307,7 +327,18 @@ class Evaluator(object):
             env[st.name] = ('closure', st, env, self.module, self.clsname)
             return
         if isinstance(st, ast.Raise):
-            raise Raised(ast.unparse(st.exc) if st.exc else '')
+            if st.exc is None:
+                cur = env.get('__exc__')
+                if cur is not None:
+                    raise cur
+                raise Raised('')
+            value = None
+            if self.evaluate_raises:
+                try:
+                    value = self.expr(st.exc, env)
+                except AnalysisError:
+                    value = None
+            raise Raised(ast.unparse(st.exc), value)
         self.err(st, 'unsupported statement')
 
     CONTROL = (Return, LoopContinue, LoopBreak, AnalysisError)
@@ -324,6 +355,8 @@ class Evaluator(object):
             except Exception as exc:
                 if isinstance(exc, Raised):
                     name = exc.text.split('(')[0].split(':')[0].strip()
+                    if isinstance(exc.value, Obj) and exc.value.has('kind'):
+                        name = exc.value.kind
                 else:
                     name = type(exc).__name__
                 for h in st.handlers:
@@ -335,11 +368,24 @@ class Evaluator(object):
                         names = [ast.unparse(h.type)]
                     if names is None or name in names or \
                             'Exception' in names or 'BaseException' in names:
+                        eobj = getattr(exc, 'value', None)
+                        if not isinstance(eobj, Obj):
+                            eobj = Obj('exception', kind=name,
+                                       text=getattr(exc, 'text', str(exc)))
+                            if not isinstance(exc, Raised):
+                                eobj.text = str(exc)
+                                eobj.__dict__['_pyexc'] = exc
                         if h.name:
-                            env[h.name] = Obj('exception', kind=name,
-                                              text=getattr(exc, 'text',
-                                                           str(exc)))
-                        self.block(h.body, env)
+                            env[h.name] = eobj
+                        saved_exc = env.get('__exc__')
+                        env['__exc__'] = exc
+                        try:
+                            self.block(h.body, env)
+                        finally:
+                            if saved_exc is None:
+                                env.pop('__exc__', None)
+                            else:
+                                env['__exc__'] = saved_exc
                         break
                 else:
                     raise
@@ -805,12 +851,30 @@ class Evaluator(object):
         if isinstance(f, Sym):
             if f.name in self.functions:
                 return self.functions[f.name](*args, **kwargs)
+            short = f.name
+            if short.startswith('<module>.'):
+                # attribute of an imported module of the package
+                short = short[len('<module>.'):]
+                key = '%s.%s' % ((f.module or '').split('.')[-1], short)
+                if key in self.functions:
+                    return self.functions[key](*args, **kwargs)
             if self.inline_module_functions and \
                     f.module == self.module.name and \
                     f.name in self.module.functions:
                 fd = self.module.functions[f.name]
                 ret, ys = self.call(fd, args, kwargs)
                 return ys if is_generator(fd) else ret
+            if self.inline_module_functions and f.module and \
+                    f.module != self.module.name and \
+                    getattr(self.module, 'index', None) is not None:
+                # a function of another module of the package: evaluated
+                # in the context of its own module
+                other = self.module.index.module(f.module)
+                if other is not None and short in other.functions:
+                    fd = other.functions[short]
+                    self.context_of.setdefault(id(fd), (other, None))
+                    ret, ys = self.call(fd, args, kwargs)
+                    return ys if is_generator(fd) else ret
             # construction of a namedtuple-like record
             return ('record', f.name, tuple(args), kwargs)
         self.err(e, 'unsupported call')
